@@ -57,3 +57,4 @@ run "9344719 flags rejects arguments" C14 -- 9344719
 run "a127cb7 list-form merge chains" C10 -- a127cb7
 run "bf22a46 environment entries" C08 -- bf22a46
 run "a3599b9 interpolated markers" C07 -- a3599b9
+run "306671e yaml separators" C04 -- 306671e
